@@ -29,7 +29,7 @@ META = {
         'REDMONSTER on ormask, dilates each row with width 2*ngrow+1 using the edge-truncating smooth, multiplies invvar by the '
         'complement; C17.SKY-CAST - each & between the caller\'s mask and a uint64 flag value has an explicit conversion. '
         'C17.MEDIAN - djs_median does not pad with the non-repeating reflect mode of numpy.pad. NOT decided: the explicit reflection slices of djs_median, maxrej/group logic, numerical interpolation values.'),
-    'floors': {'C17.MI-SITES': 11, 'C17.MI1-STORE': 6, 'C17.MI1-ORDER': 1, 'C17.GROW': 3, 'C17.REJ-MASKS': 9, 'C17.AESTH': 4,
+    'floors': {'C17.MI-SITES': 11, 'C17.MI1-STORE': 6, 'C17.MI1-ORDER': 1, 'C17.GROW': 3, 'C17.REJ-MASKS': 10, 'C17.AESTH': 4,
                'C17.SKY': 5, 'C17.SKY-CAST': 2, 'C17.MEDIAN': 1},
 }
 
@@ -205,6 +205,21 @@ def check_reject(ctx, repo):
     a2 = and_stmt('outmask')
     ctx.check('C17.REJ-MASKS', len(a2) == 1 and src(a2[0]._parent.test) == 'sticky', f, a2[0] if a2 else f.node,
               'the new mask is ANDed with outmask under sticky', msg='the new mask is not ANDed with outmask under sticky', construct='newmask&outmask')
+    # the model-less first pass returns the input mask (callers count good points with it)
+    first = [n for n in walk_local(f.node) if isinstance(n, ast.If) and src(n.test).replace(' ', '') in ('modelisNone', 'Noneismodel')]
+    if first:
+        body = first[0].body
+        rets = [r for r in body if isinstance(r, ast.Return)]
+        hand = [st for st in walk_local(first[0]) if isinstance(st, ast.Assign) and src(st.targets[0]) == 'outmask' and 'inmask' in src(st.value)
+                and isinstance(st._parent, ast.If) and 'inmask is not None' in src(st._parent.test)]
+        direct = [r for r in rets if 'inmask' in src(r.value)]
+        ctx.check('C17.REJ-MASKS', bool(rets) and (bool(hand) or bool(direct)), f, rets[0] if rets else first[0],
+                  'without a model the input mask is handed back (outmask = inmask when inmask is given)',
+                  msg='djs_reject returns `%s` on the model-less first pass without taking over inmask: points excluded by the input mask are '
+                      'reported as good (pca_solve counts them in its use-mask)' % (src(rets[0].value) if rets else '?'), construct='model-less pass drops inmask')
+    else:
+        first_alt = [r for r in walk_local(f.node) if isinstance(r, ast.Return) and any(isinstance(a, ast.If) and 'model' in src(a.test) and 'None' in src(a.test) for a in ancestors(r))]
+        ctx.need(first_alt, 'djs_reject: the model-less first pass was not found')
     check_qdone(ctx, f, fa, 'C17.REJ-MASKS')
     check_thresholds(ctx, f, fa, 'C17.REJ-MASKS')
 
